@@ -1,6 +1,8 @@
 package mon
 
 import (
+	"fmt"
+	"sort"
 	"strconv"
 
 	"github.com/intuitivelabs/sipsp"
@@ -153,6 +155,70 @@ func RunC03(r *core.Run) {
 			w.Nontrivial(core.HashBytes(b) ^ uint64(cfg.MsgFlags)<<48)
 			w.Inc("nontrivial_cases")
 		}
+	})
+	// long lines / long messages: sampled prefix lengths around powers of two and table sizes
+	r.Stage("long-lines", r.Pick(1500, 40000), func(w *core.Worker, idx int64) {
+		rr := core.NewRand(r.Seed, 0xC03, 11, uint64(idx))
+		L := []int{300, 1000, 4090, 8185, 8200, 9000, 16390, 20000, 33000, 60000}[rr.Intn(10)] + rr.Intn(16)
+		fill := func(n int, alpha string) []byte { return rr.Bytes(n, []byte(alpha)) }
+		var b []byte
+		p := Parsers[0]
+		switch rr.Intn(6) {
+		case 0: // one very long generic header value
+			b = append([]byte("INVITE sip:a SIP/2.0\r\nSubject: "), fill(L, "abc def,;=\t")...)
+			b = append(b, "\r\nl: 0\r\n\r\n"...)
+		case 1: // long folded value
+			b = []byte("INVITE sip:a SIP/2.0\r\nX: a")
+			for len(b) < L {
+				b = append(b, "\r\n  more words here"...)
+			}
+			b = append(b, "\r\nCSeq: 1 INVITE\r\n\r\n"...)
+		case 2: // long From display name / URI / params
+			b = append([]byte("SIP/2.0 200 OK\r\nFrom: \""), fill(L/2, "abc \\\\x,;")...)
+			b = append(b, "\" <sip:"...)
+			b = append(b, fill(L/2, "abc.@:;=")...)
+			b = append(b, ">;tag=1\r\nl:0\r\n\r\n"...)
+		case 3: // many contacts in one header
+			b = []byte("REGISTER sip:r SIP/2.0\r\nContact: <sip:a>")
+			for len(b) < L {
+				b = append(b, fmt.Sprintf(", <sip:u%d@h>;expires=%d;q=0.%d", rr.Intn(1000), rr.Intn(4000), rr.Intn(10))...)
+			}
+			b = append(b, "\r\n\r\n"...)
+		case 4: // long request URI / reason
+			b = append([]byte("INVITE sip:"), fill(L, "abc.@:;=?&")...)
+			b = append(b, " SIP/2.0\r\nVia: x\r\n\r\n"...)
+		default: // many headers
+			b = []byte("OPTIONS sip:a SIP/2.0\r\n")
+			for len(b) < L {
+				b = append(b, fmt.Sprintf("X-H%d: v%d\r\n", rr.Intn(100), rr.Intn(100))...)
+			}
+			b = append(b, "\r\n"...)
+		}
+		if len(b) > 65535 {
+			b = b[:65535]
+		}
+		cfg := Cfg{HdrCap: []int{-1, 0, 3, 64}[rr.Intn(4)], ContactCap: []int{-1, 0, 2}[rr.Intn(3)], MsgFlags: uint8(rr.Intn(4))}
+		// prefix sample: neighbourhoods of powers of two / 4096 multiples, random points, the end
+		var ps []int
+		for _, c := range []int{255, 256, 1023, 1024, 4095, 4096, 8191, 8192, 8193, 12288, 16383, 16384, 32767, 32768, 49152, 65535} {
+			for d := -1; d <= 1; d++ {
+				ps = append(ps, c+d)
+			}
+		}
+		for i := 0; i < 25; i++ {
+			ps = append(ps, rr.Intn(len(b)+1))
+		}
+		for d := 0; d <= 12; d++ {
+			ps = append(ps, len(b)-d)
+		}
+		sort.Ints(ps)
+		c := &Case{P: p, Cfg: cfg, Buf: b, Start: 0}
+		d := stableCheckAt(w, c, 0, ps)
+		if d >= 0 && d < len(b) {
+			w.Nontrivial(core.HashBytes(b[:64]) ^ uint64(len(b))<<32 ^ uint64(cfg.MsgFlags)<<60)
+			w.Inc("nontrivial_cases")
+		}
+		w.Inc("long_cases")
 	})
 	r.Require("C03 non-trivial cases", r.Counter("nontrivial_cases"), 10000)
 }
